@@ -93,6 +93,23 @@ func installC20Env() {
 // execTask runs a task program and returns its step records.
 func execTask(p TaskProg) (rec []string) { return execTaskAt(p, "solo") }
 
+// qHash / qHashBytes / qSprintf: the harness's own bookkeeping inside a task, invisible to the race detector's
+// happens-before tracking (see sched.Quiet).
+func qHash(v interface{}) (h string) {
+	sched.Quiet(func() { h = canon.Hash(v) })
+	return
+}
+
+func qHashBytes(b []byte) (h string) {
+	sched.Quiet(func() { h = canon.HashBytes(b) })
+	return
+}
+
+func qSprintf(format string, a ...interface{}) (s string) {
+	sched.Quiet(func() { s = fmt.Sprintf(format, a...) })
+	return
+}
+
 // execTaskAt runs a task program; tag makes the names of the files it writes unique within the scenario directory.
 func execTaskAt(p TaskProg, tag string) (rec []string) {
 	hook := func(kind string) {
@@ -108,11 +125,11 @@ func execTaskAt(p TaskProg, tag string) (rec []string) {
 	if p.MissingOpens > 0 && c20Dir != "" {
 		failed := 0
 		for k := 0; k < p.MissingOpens; k++ {
-			if _, err, pn := fileOpen(filepath.Join(c20Dir, fmt.Sprintf("%s-missing-%d.srt", tag, k))); err != nil || pn != "" {
+			if _, err, pn := fileOpen(filepath.Join(c20Dir, qSprintf("%s-missing-%d.srt", tag, k))); err != nil || pn != "" {
 				failed++
 			}
 		}
-		rec = append(rec, fmt.Sprintf("openmissing:%d:failed=%d", p.MissingOpens, failed))
+		rec = append(rec, qSprintf("openmissing:%d:failed=%d", p.MissingOpens, failed))
 	}
 	sr := simio.NewReader(p.Doc, p.Plan)
 	sr.Hook = hook
@@ -145,7 +162,7 @@ func execTaskAt(p TaskProg, tag string) (rec []string) {
 		if c20Dir != "" {
 			norm = strings.ReplaceAll(norm, c20Dir, "<dir>") // the scenario directory differs from process to process
 		}
-		rec = append(rec, "read:error:"+canon.HashBytes([]byte(norm)))
+		rec = append(rec, "read:error:"+qHashBytes([]byte(norm)))
 		defer func() {
 			if err.Error() != msg {
 				rec = append(rec, "read:error-text-changed-after-return")
@@ -155,12 +172,12 @@ func execTaskAt(p TaskProg, tag string) (rec []string) {
 			mr := simio.NewReader(p.MergeDoc, simio.ReadPlan{Rest: 256})
 			mr.Hook = hook
 			if _, e2, _ := api.Read(p.MergeReader, mr.Wrap()); e2 != nil {
-				rec = append(rec, "read2:error:"+canon.HashBytes([]byte(e2.Error())))
+				rec = append(rec, "read2:error:"+qHashBytes([]byte(e2.Error())))
 			}
 		}
 		return rec
 	}
-	rec = append(rec, "read:ok:"+canon.Hash(s))
+	rec = append(rec, "read:ok:"+qHash(s))
 	var other *astisub.Subtitles
 	if len(p.MergeDoc) > 0 {
 		mr := simio.NewReader(p.MergeDoc, simio.ReadPlan{Rest: 256})
@@ -175,7 +192,7 @@ func execTaskAt(p TaskProg, tag string) (rec []string) {
 			rec = append(rec, "op:"+op.Name+":panic")
 			continue
 		}
-		rec = append(rec, "op:"+op.Name+":"+canon.Hash(s))
+		rec = append(rec, "op:"+op.Name+":"+qHash(s))
 	}
 	for wi, wf := range p.Writers {
 		wp := simio.WritePlan{}
@@ -184,7 +201,7 @@ func execTaskAt(p TaskProg, tag string) (rec []string) {
 		}
 		w := simio.NewWriter(wp)
 		w.Hook = hook
-		before := canon.Hash(s)
+		before := qHash(s)
 		err, pn := api.Write(wf, s, w.Wrap())
 		switch {
 		case pn != "":
@@ -192,9 +209,9 @@ func execTaskAt(p TaskProg, tag string) (rec []string) {
 		case err != nil:
 			rec = append(rec, "write:"+wf+":error")
 		default:
-			rec = append(rec, "write:"+wf+":ok:"+canon.HashBytes(w.Buf))
+			rec = append(rec, "write:"+wf+":ok:"+qHashBytes(w.Buf))
 		}
-		if canon.Hash(s) != before {
+		if qHash(s) != before {
 			rec = append(rec, "write:"+wf+":input-modified")
 		}
 	}
@@ -202,7 +219,7 @@ func execTaskAt(p TaskProg, tag string) (rec []string) {
 		if c20Dir == "" {
 			break
 		}
-		path := filepath.Join(c20Dir, fmt.Sprintf("%s-%d.%s", tag, k, ext))
+		path := filepath.Join(c20Dir, qSprintf("%s-%d.%s", tag, k, ext))
 		err, pn := fileWrite(s, path)
 		switch {
 		case pn != "":
@@ -217,7 +234,7 @@ func execTaskAt(p TaskProg, tag string) (rec []string) {
 			rec = append(rec, "file:"+ext+":unreadable")
 			continue
 		}
-		rec = append(rec, "file:"+ext+":ok:"+canon.HashBytes(b))
+		rec = append(rec, "file:"+ext+":ok:"+qHashBytes(b))
 		back, err, pn := fileOpen(path)
 		switch {
 		case pn != "":
@@ -225,7 +242,7 @@ func execTaskAt(p TaskProg, tag string) (rec []string) {
 		case err != nil:
 			rec = append(rec, "reopen:"+ext+":error")
 		default:
-			rec = append(rec, "reopen:"+ext+":ok:"+canon.Hash(back))
+			rec = append(rec, "reopen:"+ext+":ok:"+qHash(back))
 		}
 	}
 	return rec
@@ -233,7 +250,7 @@ func execTaskAt(p TaskProg, tag string) (rec []string) {
 
 // inputPath is where the document of a task that goes through Open is stored.
 func inputPath(p TaskProg) string {
-	return filepath.Join(c20Dir, "in-"+canon.HashBytes(p.Doc)+"."+p.OpenExt)
+	return filepath.Join(c20Dir, "in-"+qHashBytes(p.Doc)+"."+p.OpenExt)
 }
 
 // storeInputs writes the input files of a scenario (harness work, done before any task starts).
